@@ -266,7 +266,7 @@ func c17Scenarios(thorough bool) []c17Scenario {
 			conns: []c17ConnDef{
 				{"q1", "quic4", "1.1.1.1", 1000}, {"w1", "wt4", "1.1.1.1", 2000}, {"w2", "wt4", "2.2.2.2", 1000},
 				{"q3", "ephq4", "3.3.3.3", 1000}, {"t2", "tcp4", "2.2.2.2", 1000}, {"q4", "quic4", "4.4.4.4", 1000},
-				{"w5", "ephwt4", "5.5.5.5", 1000}, {"q2", "quic4", "2.2.2.2", 2000},
+				{"w5", "ephwt4", "5.5.5.5", 1000},
 			},
 		},
 		{
